@@ -196,8 +196,22 @@ def h_generated(eng, bound, fixed=None):
 def h_pairs(eng, pairs):
     ureg = regs.default(eng)
     inf = covers.infos()
-    for i, (u, v) in enumerate(pairs):
+    for i, item in enumerate(pairs):
         x = eng.real(f"x{i}")
+        if len(item) == 4:
+            # spelled forms (alias, symbol, prefixed, plural) of the canonical units cu, cv
+            u, v, cu, cv = item
+            same = inf[cu].dims == inf[cv].dims
+            try:
+                ureg.Quantity(x, u).to(v)
+                ok = True
+            except DimensionalityError:
+                ok = False
+            eng.prove(ok == same, f"pair-spelled:{u}->{v}")
+            eng.prove(ureg.Quantity(x, u).is_compatible_with(v) == same, f"pair-spelled-compat:{u}->{v}")
+            eng.prove(ureg.Quantity(x, u).check(ureg.get_dimensionality(v)) == same, f"pair-spelled-check:{u}->{v}")
+            continue
+        u, v = item
         same = inf[u].dims == inf[v].dims
         try:
             r = ureg.Quantity(x, u).to(v)
@@ -331,6 +345,35 @@ def cases(tier, seed):
         for _ in range(1500):
             pairs.append(tuple(rnd.sample(canon, 2)))
         pairs += covers.same_dim_pairs(seed, 500)
+    # the same relation through other spellings: aliases, symbols, prefixed and plural forms
+    from ..ref import refdefs
+    from .c02 import _readings
+
+    d = refdefs.default()
+    by_canon = {}
+    for sp, c in d.spellings.items():
+        by_canon.setdefault(c, []).append(sp)
+
+    def spell(c):
+        forms = list(by_canon.get(c, [c]))
+        for pfx in ("kilo", "milli", "µ", "M"):
+            for base in by_canon.get(c, [c])[:3]:
+                for suf in ("", "s"):
+                    t = pfx + base + suf
+                    if t.isidentifier() and _readings(d, t) == {({"kilo": "kilo", "milli": "milli", "µ": "micro", "M": "mega"}[pfx], c)}:
+                        forms.append(t)
+        for base in by_canon.get(c, [c])[:3]:
+            t = base + "s"
+            if t.isidentifier() and _readings(d, t) == {("", c)}:
+                forms.append(t)
+        return rnd.choice(forms)
+
+    spelled = []
+    base_pairs = covers.same_dim_pairs(seed + 7, 4000 if big else 250) + [tuple(rnd.sample(canon, 2)) for _ in range(4000 if big else 250)]
+    for cu, cv in base_pairs:
+        spelled.append((spell(cu), spell(cv), cu, cv))
+    for i in range(0, len(spelled), 50):
+        out.append(Case("H01.c", f"spelled:{i:06d}", M, "h_pairs", {"pairs": spelled[i : i + 50]}, validate=0, weight=3.0))
     for i in range(0, len(pairs), 250 if big else 50):
         chunk = pairs[i : i + (250 if big else 50)]
         out.append(Case("H01.c", f"{i:06d}", M, "h_pairs", {"pairs": chunk}, validate=0, weight=3.0))
